@@ -69,7 +69,7 @@ theorem reqNewBelow_allNew {n : Node} (h : allNew n = true) : reqNewBelow n = no
 /-- the node that `a ⊕ {}` leaves: only the flags of the root are combined -/
 def emptyRightResult (sf : Flags) (sk : CompKind) (scs : List (Key × Node)) (ef : Flags) : Node :=
   if hasPrio ef sf true then propagate (.comp (replaceSelfFlags sf ef) sk scs)
-  else .comp (replaceOtherFlags sf ef) sk scs
+  else propagate (.comp (replaceOtherFlags sf ef) sk scs)
 
 theorem mergeF_empty_right (fuel : Nat) (sf : Flags) (sk : CompKind) (scs : List (Key × Node))
     (ef : Flags) (hk : sk.isDictFam = true) (he : bareW ef = true) :
@@ -101,7 +101,7 @@ theorem native_emptyRightResult (sf : Flags) (sk : CompKind) (scs : List (Key ×
   simp only [emptyRightResult]
   split
   · rw [nativeOf_propagate]; exact native_comp_flags _ _ _ _
-  · exact native_comp_flags _ _ _ _
+  · rw [nativeOf_propagate]; exact native_comp_flags _ _ _ _
 
 /-- keys and data of the children after `a ⊕ {}` -/
 theorem children_emptyRightResult (sf : Flags) (sk : CompKind) (scs : List (Key × Node)) (ef : Flags) :
@@ -113,7 +113,10 @@ theorem children_emptyRightResult (sf : Flags) (sk : CompKind) (scs : List (Key 
     split
     · exact ⟨rfl, rfl⟩
     · exact ⟨nativeList_applyKwList _ _, nativeVals_applyKwList _ _⟩
-  · exact ⟨rfl, rfl⟩
+  · simp only [propagate]
+    split
+    · exact ⟨rfl, rfl⟩
+    · exact ⟨nativeList_applyKwList _ _, nativeVals_applyKwList _ _⟩
 
 /-! ### empty mapping on the left -/
 
@@ -158,10 +161,10 @@ theorem mergeLoop_fresh (rec : Node → Node → Except Err (Node × Bool)) (ef 
 /-- the result of `{} ⊕ b` for a mapping `b` -/
 def emptyLeftResult (ef bf : Flags) (bcs : List (Key × Node)) : Node × Bool :=
   if eDel (.comp bf .dict bcs) && hasPrio bf ef true then
-    (.comp (replaceOtherFlags bf ef) .dict bcs, false)
+    (propagate (.comp (replaceOtherFlags bf ef) .dict bcs), false)
   else if hasPrio bf ef true then
     (propagate (.comp (replaceSelfFlags ef bf) .dict (adoptList ef bcs)), true)
-  else (.comp (replaceOtherFlags ef bf) .dict (adoptList ef bcs), true)
+  else (propagate (.comp (replaceOtherFlags ef bf) .dict (adoptList ef bcs)), true)
 
 theorem mergeF_empty_left (fuel : Nat) (ef bf : Flags) (bcs : List (Key × Node))
     (hnd : keysNodup bcs = true) (hnew : allNewList bcs = true) :
@@ -171,7 +174,7 @@ theorem mergeF_empty_left (fuel : Nat) (ef bf : Flags) (bcs : List (Key × Node)
   have hfin : finishMerge ef .dict (adoptList ef bcs) (.comp bf .dict bcs) =
       .ok (if hasPrio bf ef true then
           (propagate (.comp (replaceSelfFlags ef bf) .dict (adoptList ef bcs)), true)
-        else (.comp (replaceOtherFlags ef bf) .dict (adoptList ef bcs), true)) := by
+        else (propagate (.comp (replaceOtherFlags ef bf) .dict (adoptList ef bcs)), true)) := by
     simp only [finishMerge, Node.flags, maybePromote, CompKind.sameClass, if_true]
     split <;> rfl
   simp only [mergeF, compMerge, emptyLeftResult]
@@ -189,9 +192,9 @@ theorem native_emptyLeftResult (ef bf : Flags) (bcs : List (Key × Node)) :
     native (emptyLeftResult ef bf bcs).1 = native (.comp bf .dict bcs) := by
   simp only [emptyLeftResult]
   split
-  · exact native_comp_flags _ _ _ _
+  · rw [nativeOf_propagate]; exact native_comp_flags _ _ _ _
   · split
     · rw [nativeOf_propagate]; simp [native, nativeList_adoptList, CompKind.isDictFam]
-    · simp [native, nativeList_adoptList, CompKind.isDictFam]
+    · rw [nativeOf_propagate]; simp [native, nativeList_adoptList, CompKind.isDictFam]
 
 end AY
